@@ -362,3 +362,39 @@ def run_const_fields(F, rep, crate, rule="C06-R17"):
                           key, ws, tag, "reads" if store == "r" else "writes", other, msg), "%s (%s)" % (key, crate), sample={"type": key, "write_le": ws, tag: other})
     rep.floor(rule, "write_le/from_le pairs with >= 2 shared field names", n_r, 2)
     rep.floor(rule, "write_le/compile_const pairs with >= 2 shared field names", n_c, 1)
+
+
+def run_r9(F, rep, crate):
+    """C07-R9: a length prefix counts the bytes that follow it"""
+    rep.rule("C07-R9", "length prefixes measure the bytes they precede: wherever a writer emits `write_uN(E)` directly followed by the raw bytes of B (extend_from_slice / write_all), E is "
+                      "`len()` of that same byte sequence (for a String: its UTF-8 length, not its character count) - the readers take the prefix as a byte count")
+    n = 0
+    for it in F.syn(crate):
+        if it["k"] not in ("method", "fn") or not it.get("body") or not (it.get("mod") or "").startswith("program"):
+            continue
+        seq = []
+        for x in walk(it["body"]):
+            if x[0] == "mcall":
+                m = re.match(r"^write_(u16|u32|u64)$", x[2])
+                if m and x[4]:
+                    seq.append(("len", x[4][0]))
+                elif x[2] in ("extend_from_slice", "write_all") and x[4]:
+                    seq.append(("bytes", x[4][0]))
+                elif re.match(r"^write_", x[2]):
+                    seq.append(("other", None))
+        for (k1, e1), (k2, e2) in zip(seq, seq[1:]):
+            if k1 != "len" or k2 != "bytes":
+                continue
+            if not any(y[0] == "mcall" for y in walk(e1)):
+                continue          # a constant or a plain field, not a computed length
+            norm_b = re.sub(r"\.as_bytes\(\)|\.as_slice\(\)|\.as_ref\(\)|[&*()\s]", "", render(e2))
+            txt = re.sub(r"[&*\s]", "", render(e1))
+            txt = re.sub(r"\(([^()]*)as\w+\)", r"\1", txt)
+            txt = re.sub(r"as(u16|u32|u64|usize)\)?$", "", txt).strip("()")
+            n += 1
+            ok = txt == norm_b + ".len" or txt == norm_b + ".len()" or txt.replace("()", "") == (norm_b + ".len")
+            who = "%s::%s" % (it.get("self") or it.get("mod"), it["name"])
+            rep.check(ok, "C07-R9", "%s:prefix-of-%s" % (who, norm_b[:30]) if ok else "%s:prefix-of-%s:is-%s" % (who, norm_b[:20], re.sub(r"\W+", "-", txt)[:40]),
+                      "%s writes the length prefix `%s` in front of the bytes `%s`: the reader consumes that many BYTES, so any difference between the two (e.g. characters vs UTF-8 bytes) "
+                      "truncates the value or runs into the next field" % (who, render(e1)[:50], render(e2)[:40]), "%s (%s)" % (who, crate), sample={"writer": who, "prefix": render(e1)[:50], "bytes": render(e2)[:40]})
+    rep.floor("C07-R9", "length-prefixed byte runs", n, 3)
